@@ -8,8 +8,8 @@ Local Open Scope N_scope.
 
 Definition cls_code (c : option cls) : N :=
   match c with
-  | None => 0 | Some CCommaSet => 1 | Some CStar => 2 | Some CReversedRange => 3 | Some CParenGroup => 4
-  | Some CNotOrArity => 5 | Some CUnknownKey => 6 | Some CTextAtom => 8
+  | None => 0 | Some CCommaSet => 1 | Some CStar => 2 | Some CReversedRange => 3
+  | Some CUnknownKey => 6 | Some CTextAtom => 8
   | Some CQuotedSpace => 11
   end.
 
